@@ -71,6 +71,14 @@ def analyse_const_messages(msgs, names, variant):
         if text.startswith("aborting due to") or text.startswith("could not compile"):
             continue
         is_const_eval = code in ("E0080", "long_running_const_eval") or any(k in (text + rendered).lower() for k in CONST_EVAL_MARKS)
+        if code == "E0015":
+            # "cannot call non-const function in constants": the function still exists under this
+            # name and signature but is no longer usable in a const context — which is exactly what
+            # the const-API property promises (an API that moved gives resolution errors instead)
+            summary = re.sub(r"\d+", "#", text)[:120]
+            violations.append({"prop": "C18", "sig": f"const-context|not-const:{summary}", "case": "C18 const item calling " + (re.search(r"`([^`]+)`", text) or [None, "?"])[1][:120],
+                               "detail": rendered[:1800], "log": [], "variant": variant, "engine": "constprobe", "args": []})
+            continue
         if not is_const_eval:
             inconclusive.append(f"constprobe no longer compiles against this tree ({code}): {text[:200]}")
             continue
